@@ -1,6 +1,7 @@
 package props
 
 import (
+	"fmt"
 	"strings"
 
 	"gcacheck/internal/an"
@@ -17,7 +18,7 @@ func init() {
 			"AUTH at every call of the key saver, with GCAServer.mu held from before the test to after the store (deferred unlock), the flag is known to be false and glow.Verify(gcaTempKey, gr.SigningBytes(), gr.Signature) holds for the registration that is saved " +
 			"(check-and-set is atomic, so exactly one of any number of concurrent registrations succeeds and none succeeds afterwards); in the saver the file write of exactly gr.GCAKey succeeds before the key and the flag are set, the stored key is gr.GCAKey and the flag true; " +
 			"the loader sets the flag only when the file holds exactly 32 bytes (so 'after restarts' reduces to the same one-shot rule); KEYS every glow.Verify call in the server is classified by its key: the registered GCA key (read under the lock), the temporary key (only in the registration function), " +
-			"a looked-up device key, or the new GCA named inside a migration order already verified under the registered key; any other key is a violation. NOT decided: nothing structural; key strength is trusted.",
+			"a looked-up device key, or the new GCA named inside a migration order already verified under the registered key; any other key is a violation; HONOURED the rules of C06 and C17 that every call of the authorization saver, every write of the authorized-server list and every store of a migration order is dominated by glow.Verify under the registered key over the signing bytes of the very object that is applied (re-run here). NOT decided: nothing structural; key strength is trusted.",
 		Assumptions: append([]string{"glow.Verify is sound (trusted)"}, baseAssumptions...),
 		Run:         runC07,
 	})
@@ -25,6 +26,7 @@ func init() {
 
 func runC07(c *an.Ctx) {
 	p := c.P
+	signingCoverage(c, "COVER", "server", "GCARegistration", "Signature")
 	ctor := p.Constructor("server", "GCAServer")
 	construction := p.ConstructionPhase("server", ctor)
 	var saver *ssa.Function
@@ -56,7 +58,7 @@ func runC07(c *an.Ctx) {
 		}
 	}
 	c.Count("WHO-MAY", n)
-	c.Floor("WHO-MAY", 5)
+	c.Floor("WHO-MAY", 3)
 	if saver == nil {
 		c.Undecided("ANCHOR", nil, 0, "key-saver", "GCA key saver not found", "anchor missing")
 		return
@@ -133,6 +135,44 @@ func runC07(c *an.Ctx) {
 			}
 		}
 	}
+	// every successful return of the saver has set both the key and the flag
+	for _, f := range []string{"gcaPubkey", "gcaPubkeyAvailable"} {
+		var stores []*ssa.Store
+		for _, b := range saver.Blocks {
+			for _, in := range b.Instrs {
+				if st, ok := in.(*ssa.Store); ok {
+					if ff, ok := sfi.RefClass(st.Addr).FieldOf("GCAServer"); ok && ff == f {
+						stores = append(stores, st)
+					}
+				}
+			}
+		}
+		okSet := true
+		nRet := 0
+		for _, b := range saver.Blocks {
+			if b == saver.Recover || len(b.Instrs) == 0 {
+				continue
+			}
+			ret, isRet := b.Instrs[len(b.Instrs)-1].(*ssa.Return)
+			if !isRet || len(ret.Results) == 0 {
+				continue
+			}
+			if !isConstTerm(sfi.Term(ret.Results[len(ret.Results)-1]), "nil") {
+				continue
+			}
+			nRet++
+			dom := false
+			for _, st := range stores {
+				if st.Block().Dominates(b) {
+					dom = true
+				}
+			}
+			if !dom {
+				okSet = false
+			}
+		}
+		c.Check(okSet && nRet > 0, "PERSIST", saver, saver.Pos(), an.KeyOf(saver, "success-sets:"+f), "every successful return of the key saver has stored "+f+" (after a successful registration the server is registered: a second registration is refused and the key is in force)", fmt.Sprintf("%d stores, %d nil-error returns", len(stores), nRet))
+	}
 	// call sites of the saver
 	sites := p.CallSites(saver)
 	c.Count("AUTH", len(sites))
@@ -208,6 +248,16 @@ func runC07(c *an.Ctx) {
 		}
 	}
 	verifySites(c)
+	// HONOURED: the three kinds of GCA-signed orders change state only under a
+	// signature of the registered key (rules owned by C06 and C17, re-run here
+	// because this property states them too)
+	if saver := findAuthSaver(p); saver != nil {
+		equipmentAuthSites(c, saver)
+	} else {
+		c.Undecided("ANCHOR", nil, 0, "auth-saver", "authorization saver not found", "anchor missing")
+	}
+	serverListAuth(c)
+	migrationStore(c)
 }
 
 // verifySites classifies every glow.Verify call of the server by its key.
